@@ -26,6 +26,8 @@ R14.e  ``Schedule.to_dict`` emits each machine's job ids in list order: no
 R14.g  no function of these modules modifies the object of a mutable default
        argument (directly, through a local alias, or with ``+=``): the result
        of a call must not depend on earlier calls.
+R14.h  no for-loop variable of these modules is read after its loop (a statement
+       left one indentation level too shallow sees only the last element).
 """
 
 from __future__ import annotations
@@ -52,6 +54,7 @@ MANIFEST = {
         "reordering). Not decided: the values of the derived views and round-trip "
         "equality."
         " Also decided: no function of these modules accumulates into a mutable default argument."
+        " Also decided: no for-loop variable of these modules is read after its loop (statement left one indentation level too shallow)."
     ),
     "note": "Transformation.__call__ renaming an instance that apply returned unchanged is reported as an observation (outside C14's list of actors). Alias model as in C05.",
     "technique": "typed who-may-write sweep with interprocedural alias analysis + dictionary key agreement + loop progress (must-dispatch-or-raise) path check",
@@ -84,6 +87,9 @@ def _unwrap(o):
 
 def run(ctx):
     chk, repo = ctx.chk, ctx.repo
+    from .common import check_loop_variable_leaks
+
+    check_loop_variable_leaks(ctx, "R14.h", ("job_shop_lib._schedule", "job_shop_lib._job_shop_instance", "job_shop_lib._operation", "job_shop_lib._scheduled_operation", "job_shop_lib.benchmarking"), "the data-structure / serialisation")
     from .common import check_mutable_defaults
 
     check_mutable_defaults(ctx, "R14.g", ("job_shop_lib._schedule", "job_shop_lib._job_shop_instance", "job_shop_lib._operation", "job_shop_lib._scheduled_operation", "job_shop_lib.benchmarking"), "the data-structure / serialisation")
@@ -413,8 +419,50 @@ def _no_hang(ctx):
     if not bad:
         chk.ok("R14.c", fjs.qualname, fjs.loc(w), f"{n} paths through one iteration: each dispatches or raises")
     test = ast.unparse(w.test)
-    if "is_complete()" not in test:
+    if "is_complete()" not in test and not _counts_to_completion(ctx, fjs, w):
         raise AnalysisError("from_job_sequences: loop condition not recognised")
+
+
+def _counts_to_completion(ctx, fjs, w) -> bool:
+    """``while n != <number of operations>`` with ``n`` a local that starts at 0
+    and is advanced by one exactly where an operation is dispatched: the loop
+    ends when everything is scheduled, like ``while not is_complete()``."""
+    t = w.test
+    if not (isinstance(t, ast.Compare) and len(t.ops) == 1 and isinstance(t.ops[0], (ast.NotEq, ast.Lt)) and isinstance(t.left, ast.Name)):
+        return False
+    n = t.left.id
+    total = ctx.norm.xtext(fjs, t.comparators[0]).replace(" ", "")
+    if not total.endswith("instance.num_operations"):
+        return False
+    defs = [d for d in ctx.flow.defs(fjs).of(n) if d[0] == "value"]
+    if len(defs) != 1 or not (isinstance(defs[0][1], ast.Constant) and defs[0][1].value == 0):
+        return False
+    incs = [x for x in ast.walk(w) if isinstance(x, ast.AugAssign) and isinstance(x.target, ast.Name) and x.target.id == n]
+    if not incs or not all(isinstance(x.op, ast.Add) and isinstance(x.value, ast.Constant) and x.value.value == 1 for x in incs):
+        return False
+    other = [x for x in ast.walk(w) if isinstance(x, ast.Assign) and any(isinstance(tg, ast.Name) and tg.id == n for tg in x.targets)]
+    if other:
+        return False
+
+    def block_of(node, root):
+        for p in ast.walk(root):
+            for fld in ("body", "orelse", "finalbody"):
+                blk = getattr(p, fld, None)
+                if isinstance(blk, list) and any(b is node for b in blk):
+                    return blk
+        return None
+
+    disp_stmts = [
+        st for st in ast.walk(w)
+        if isinstance(st, ast.Expr) and isinstance(st.value, ast.Call) and isinstance(st.value.func, ast.Attribute) and st.value.func.attr == "dispatch"
+    ]
+    if not disp_stmts or len(disp_stmts) != len(incs):
+        return False
+    for d in disp_stmts:
+        blk = block_of(d, w)
+        if blk is None or sum(1 for x in blk if x in incs) != 1:
+            return False
+    return True
 
 
 def _feasible(evs) -> bool:
@@ -423,10 +471,25 @@ def _feasible(evs) -> bool:
     returned by an inlined helper."""
     env: dict[tuple, bool] = {}
     last_ret: dict[int, bool] = {}
+    # snapshots of a counter: `before = n` ... `n += 1` ... `if n == before`
+    # snap[(frame, before)] = [n, grown since the snapshot?]
+    snap: dict[tuple, list] = {}
     for e in evs:
         fid = e.frame.id
         if e.kind == "write" and e.data.get("local"):
             st = e.node
+            if isinstance(st, ast.Assign) and len(st.targets) == 1 and isinstance(st.targets[0], ast.Name) and isinstance(st.value, ast.Name):
+                snap[(fid, st.targets[0].id)] = [st.value.id, False]
+            elif isinstance(st, ast.AugAssign) and isinstance(st.target, ast.Name) and isinstance(st.op, ast.Add) \
+                    and isinstance(st.value, ast.Constant) and isinstance(st.value.value, int) and st.value.value > 0:
+                for k, v in snap.items():
+                    if k[0] == fid and v[0] == st.target.id:
+                        v[1] = True
+                snap.pop((fid, st.target.id), None)
+            else:
+                root = e.data.get("root")
+                for k in [k for k, v in snap.items() if k[0] == fid and (k[1] == root or v[0] == root)]:
+                    snap.pop(k)
             if isinstance(st, (ast.Assign, ast.AnnAssign)) and isinstance(getattr(st, "targets", [getattr(st, "target", None)])[0], ast.Name):
                 tgt = (st.targets[0] if isinstance(st, ast.Assign) else st.target).id
                 v = st.value
@@ -483,6 +546,24 @@ def _feasible(evs) -> bool:
                 if isinstance(x, ast.Call) and id(x) in last_ret:
                     r = last_ret[id(x)]  # the (inlined) call's constant result on this path
                     return (r == "pos") if r in ("zero", "pos") else r
+                if isinstance(x, ast.Compare) and len(x.ops) == 1 and isinstance(x.left, ast.Name) and isinstance(x.comparators[0], ast.Name):
+                    a, b = x.left.id, x.comparators[0].id
+                    for cur, before in ((a, b), (b, a)):
+                        sn = snap.get((fid, before))
+                        if sn is not None and sn[0] == cur:
+                            grown = sn[1]
+                            op = x.ops[0]
+                            if isinstance(op, ast.Eq):
+                                return not grown
+                            if isinstance(op, ast.NotEq):
+                                return grown
+                            if isinstance(op, (ast.Gt, ast.Lt)):
+                                # cur > before / before < cur
+                                if (isinstance(op, ast.Gt) and cur == a) or (isinstance(op, ast.Lt) and cur == b):
+                                    return grown
+                            if isinstance(op, (ast.LtE, ast.GtE)):
+                                if (isinstance(op, ast.LtE) and cur == a) or (isinstance(op, ast.GtE) and cur == b):
+                                    return not grown
                 return _counter_test(x, fid, env)
 
             known = known_of(t)
